@@ -28,7 +28,7 @@ TReset ==
     /\ keyFile' = KeyFacts(Ev.key) /\ certFile' = CrtFacts(Ev.cert)
     /\ phase' = "idle" /\ reached' = 0 /\ authz' = NoAuthz /\ authzSeen' = {} /\ hooksRun' = <<>>
     /\ cleanDue' = <<>> /\ csr' = NoCsr /\ served' = "none" /\ keyUsed' = "none" /\ wrote' = {}
-    /\ postOps' = 0 /\ result' = [done |-> FALSE, ok |-> FALSE, status |-> "none"]
+    /\ postOps' = 0 /\ result' = [done |-> FALSE, ok |-> FALSE, status |-> "none", hf |-> FALSE]
     /\ snapshot' = [key |-> "none", cert |-> "none", ok |-> TRUE]
     /\ clock' = 0 /\ lastFail' = NoFail /\ attempts' = 0 /\ succeeded' = FALSE /\ bad' = {}
 
@@ -53,6 +53,7 @@ TFileWrite ==
                    served, keyUsed, postOps, result, snapshot, clock, lastFail, attempts, succeeded>>
 TFinalize == Is("Finalize") /\ Adv /\ Finalize(Ev.csr, Ev.issued)
 TCert == Is("CertServed") /\ Adv /\ CertServed(Ev.sha, Ev.genuine)
+THookFailed == Is("HookFailed") /\ Adv /\ HookFailed
 TReqEnd == Is("ReqEnd") /\ Adv /\ ReqEnd(Ev.ok, Ev.status)
 TPostOp == Is("PostOp") /\ Adv /\ PostOperation(Ev.is_success, Ev.status, KeyFacts(Ev.key), CrtFacts(Ev.cert))
 TEnd == Is("AttemptEnd") /\ Adv /\ AttemptEnd(Ev.ok, Ev.real)
@@ -65,7 +66,7 @@ TDisk ==
                    postOps, result, snapshot, clock, lastFail, attempts, succeeded>>
 
 TNext == TReset \/ TSleep \/ TStart \/ TOrder \/ TAuthz \/ THook \/ TChalPost \/ TKeyPair \/ TFileWrite
-         \/ TFinalize \/ TCert \/ TReqEnd \/ TPostOp \/ TEnd \/ TDaemonEnd \/ TDisk
+         \/ TFinalize \/ TCert \/ THookFailed \/ TReqEnd \/ TPostOp \/ TEnd \/ TDaemonEnd \/ TDisk
 
 Report == (bad' \cap Enforce # {}) => PrintT(<<"BAD", bad' \cap Enforce, l>>)
 
